@@ -401,6 +401,31 @@ def run(model, col, tier):
     col.check(len(rets) == 1 and unparse(rets[0].value).replace(" ", "") in ("_op_str_map[op]",), "R08.2",
               "nsl/op.py::StrToOp", "returns _op_str_map[op]", f"returns {unparse(rets[0].value) if rets else None}", "nsl/op.py", strtoop)
 
+    # ---- R08.5 the tree printer shows the grouping --------------------------
+    # (the printed form is how a grouping is observed and what PrettyPrint emits: every nested
+    # binary operand must be parenthesised, otherwise `a - (b - c)` prints as `a - b - c`)
+    sm = be.own_method("__str__")
+    for side in ("GetLeft", "GetRight"):
+        tests = [n for n in ast.walk(sm) if isinstance(n, ast.If) and side in unparse(n.test) and "isinstance" in unparse(n.test)]
+        good = False
+        for t in tests:
+            plain = isinstance(t.test, ast.Call) and dotted(t.test.func) == "isinstance" and "BinaryExpression" in unparse(t.test.args[1])
+            body = unparse(ast.Module(body=t.body, type_ignores=[]))
+            wraps = "'('" in body and "')'" in body and side in body
+            good |= plain and wraps
+        col.check(good, "R08.5", f"nsl/ast/__init__.py::BinaryExpression.__str__ {side[3:].lower()} operand",
+                  "a nested binary operand is always printed in parentheses",
+                  f"the {side[3:].lower()} operand is not unconditionally parenthesised when it is a BinaryExpression: the printed text can re-parse to a different grouping", "nsl/ast/__init__.py", sm)
+    opstr = [c for c in ast.walk(sm) if isinstance(c, ast.Call) and last_attr(c) == "OpToStr"]
+    col.check(bool(opstr) and "self.op" in unparse(opstr[0]), "R08.5", "nsl/ast/__init__.py::BinaryExpression.__str__ operator", "prints its own operator via OpToStr", None, "nsl/ast/__init__.py", sm)
+    order = unparse(sm)
+    col.check(0 <= order.find("GetLeft") < order.find("OpToStr") < order.rfind("GetRight"), "R08.5", "nsl/ast/__init__.py::BinaryExpression.__str__ order",
+              "prints left operand, operator, right operand", "does not print left, operator, right in that order", "nsl/ast/__init__.py", sm)
+    sto = model.fold(model.module_assign("nsl/op.py", "_op_str_map"))
+    inv = model.module_assign("nsl/op.py", "_str_op_map")
+    col.check(isinstance(inv, ast.DictComp) and unparse(inv.key) == "v" and unparse(inv.value) == "k", "R08.5", "nsl/op.py::_str_op_map is the inverse of _op_str_map",
+              "{v: k for k, v in _op_str_map.items()}", "_str_op_map is not built as the inverse of _op_str_map", "nsl/op.py", inv)
+
     # ---- R08.1 automaton obligations ---------------------------------------
     nstates_with = 0
     violated_states = set()
